@@ -324,6 +324,14 @@ pub fn expected_plain(_base: &Path, tree: &TreeSpec, skip: &BTreeSet<String>) ->
             continue;
         }
         out.insert(n.path.clone());
+        // a root that is a link to the directory on the other device is followed
+        if n.kind == NodeKind::XdevLink && tree.roots.contains(&n.path) {
+            for c in ["xf0", "xd", "xd/xf1"] {
+                if !skip.iter().any(|s| format!("{}/{c}", n.path).starts_with(&format!("{s}/"))) {
+                    out.insert(format!("{}/{c}", n.path));
+                }
+            }
+        }
     }
     out
 }
